@@ -2,6 +2,8 @@
 import os
 import tempfile
 
+import math
+
 import numpy as np
 
 from vmon.gen import bases
@@ -43,6 +45,19 @@ def fmt_num(x, style, rng=None):
         s = "%.10E" % x
     elif style == "D":
         s = ("%.10E" % x).replace("E", "D")
+    elif style == "Dv":
+        # other legal spellings of a Fortran D number: exponent without sign or with one digit (D00, D0, D+0, D-1), a
+        # mantissa that ends with the decimal point (1.D+00); which spelling depends on the digits of the number itself
+        if x == 0:
+            return "0.D0"
+        e = int(math.floor(math.log10(abs(x))))
+        m = x / 10.0 ** e
+        ms = "%.9f" % m
+        v = int(abs(x) * 7919) % 4
+        ex = [("D%02d" % e) if e >= 0 else ("D-%02d" % -e), "D%d" % e, "D%+d" % e, "D%+03d" % e][v]
+        if v >= 2 and ms.rstrip("0").endswith("."):
+            ms = ms.rstrip("0")
+        s = ms + ex
     else:
         s = "%.7f" % x
     return s
@@ -207,7 +222,7 @@ def gen_cases(tier, seed):
     cases = []
     for i in range(n):
         cases.append({"i": i, "seed": [seed, tier, i], "header": [0, 1, 2, 6][i % 4], "fmt": ["nwchem", "gbs"][(i // 4) % 2],
-                      "style_e": ["plain", "E", "D", "dot"][(i // 8) % 4], "style_c": ["plain", "dot", "E", "D"][(i // 2) % 4],
+                      "style_e": ["plain", "E", "D", "dot", "Dv"][(i // 8) % 5], "style_c": ["plain", "dot", "E", "D", "Dv"][(i // 2) % 5],
                       "near_equal": (i % 12 == 5), "inner": (i % 3 == 1), "classes": ["hdr:%d" % [0, 1, 2, 6][i % 4], "fmt:" + ["nwchem", "gbs"][(i // 4) % 2]], "cost": 1})
     return cases
 
@@ -429,4 +444,4 @@ def classify(case, v):
 
 
 def summarize(cases, results, counts, lists, tier):
-    return {"header_variants": [0, 1, 2, 6], "formats": ["nwchem", "gbs"], "number_styles": ["plain", "dot", "E", "D"]}
+    return {"header_variants": [0, 1, 2, 6], "formats": ["nwchem", "gbs"], "number_styles": ["plain", "dot", "E", "D", "Dv (D00, D0, D+0, 1.D+00)"]}
